@@ -59,7 +59,7 @@ Value& MemberSETExpression::value(Context& ctx) const
       case Type::INTEGER:
         if (a0.type() == Type::NUMERIC)
         {
-          rv->at(_index).swap(a0.isNull() ? Value(Value::type_integer) : Value(Integer(*a0.numeric())));
+          rv->at(_index).swap(a0.isNull() ? Value(Value::type_integer) : Value(Value::toInteger(*a0.numeric())));
           return val;
         }
         else if (a0.type() == Type::NO_TYPE)
